@@ -42,7 +42,8 @@ def make_scheduler(cfg, seeds="spec"):
     samplers = make_samplers(cfg, seeds)
     rl = cfg["rl"]
     n_act = len(samplers) if any(s["kind"] == "halton" for s in cfg["lineup"]) else len(samplers) + 1
-    agent = MABEpsilonGreedy(n_act, rl["alpha"], rl["eps"], random_state=rl.get("agent_seed", 0) if seeds == "spec" else int(seeds[-1]))
+    agent = MABEpsilonGreedy(n_act, rl["alpha"], rl["eps"], initial_values=rl.get("initial_values", 0.0),
+                             random_state=rl.get("agent_seed", 0) if seeds == "spec" else int(seeds[-1]))
     env = MABCalibrationEnv(n_act)
     return RLScheduler(samplers, agent=agent, env=env, random_state=rl.get("sched_seed", 0) if seeds == "spec" else int(seeds[0]))
 
@@ -65,8 +66,8 @@ def build(cfg, model=None, loss=None, samplers=None, scheduler=None, seeds="spec
         loss_function=loss if loss is not None else make_loss(c),
         real_data=real_data(c),
         model=model if model is not None else models.get(c["model"], c["D"]),
-        parameters_bounds=[sp["lo"], sp["hi"]],
-        parameters_precision=sp["prec"],
+        parameters_bounds=np.array([sp["lo"], sp["hi"]]) if c.get("as_array") else [sp["lo"], sp["hi"]],
+        parameters_precision=np.array(sp["prec"]) if c.get("as_array") else sp["prec"],
         ensemble_size=c["E"],
         sim_length=c.get("sim_length"),
         convergence_precision=c.get("convergence_precision"),
@@ -132,8 +133,10 @@ def config(draw, kinds=gen.CHEAP, max_d=4, max_len=6, max_bs=4, losses=("minkows
     cfg = {"space": sp, "lineup": draw(gen.lineup_spec(kinds=kinds, max_len=max_len, max_bs=max_bs)),
            "loss": lspec, "model": draw(st.sampled_from(list(model_kinds))), "D": d_out, "N": n,
            "E": draw(st.integers(1, max_e)), "seed": draw(st.integers(0, 2**32 - 2))}
+    cfg["as_array"] = draw(st.booleans())
     if rl:
         cfg["rl"] = {"alpha": draw(st.sampled_from([-1, 0.1, 0.5])), "eps": draw(st.sampled_from([0.0, 0.1, 0.5, 1.0])),
+                     "initial_values": draw(st.sampled_from([0.0, 0.0, 1.0])),
                      "agent_seed": draw(st.integers(0, 100)), "sched_seed": draw(st.integers(0, 100))}
     return cfg
 
